@@ -129,7 +129,7 @@ def run_panic(rep, F, sets, floor, extra_rules=(), lemma_ok=None):
                     if g not in cache:
                         cache[g] = panic.index_by_span(F.fns[g])
                     for node, path in cache[g].get(s.sp, []):
-                        if node.get("k") == s.node.get("k"):
+                        if node.get("k") == s.node.get("k") or (node.get("folded") and s.node.get("k") == "Binary"):
                             c = panic.Site(g, s.kind, s.callee, s.sp, s.detail, s.exp)
                             c.node, c.path = node, path
                             copies.append(c)
@@ -156,6 +156,56 @@ def run_panic(rep, F, sets, floor, extra_rules=(), lemma_ok=None):
     if n < floor:
         rep.lost("PANIC", "PANIC/floor", "at least %d panic-capable sites enumerated (counted by hand on the pinned tree)" % floor, "found %d" % n)
     return R
+
+
+CONSUMING = ("Iterator::next", "::next_if", "::next_if_eq", "Iterator::nth", "MapAccess::next_key", "MapAccess::next_entry", "MapAccess::next_value", "SeqAccess::next_element",
+             "Vec::<T, A>::pop", "VecDeque::<T, A>::pop_front", "VecDeque::<T, A>::pop_back", "DoubleEndedIterator::next_back", "Chars::<'a>::next")
+
+
+def _consumes(F, x, src):
+    """x takes at least one item out of the iterator / collection variable `src` (directly, or as the first thing a local function does)"""
+    if x.get("k") != "Call" or not x.get("fn"):
+        return False
+    if any(x["fn"].endswith(c) for c in CONSUMING) and x["args"] and q.base_var(x["args"][0]) == src:
+        return True
+    if x.get("local") and x["fn"] in F.fns and F.fns[x["fn"]].thir is not None:
+        callee = F.fns[x["fn"]]
+        ps = [strip_ref(p["pat"]).get("id") if p.get("pat") else None for p in callee.thir["params"]]
+        for a, pid in zip(x["args"], ps):
+            if q.base_var(a) == src and pid is not None:
+                b = unblock(callee.body)
+                if b.get("k") == "Match" and any(call_is(peel(b["scrut"]), c) for c in CONSUMING) and q.base_var(peel(b["scrut"])["args"][0]) == pid:
+                    return True
+    return False
+
+
+def loop_progress(F, lp):
+    """-> (ok, why) for a `loop` node (while / while-let are `loop { if COND {..} else {break} }` in the facts)"""
+    b = unblock(lp["body"])
+    while b.get("k") == "Block" and not b["stmts"] and b.get("expr") is not None:
+        b = unblock(b["expr"])
+    if not (b.get("k") == "If" and b.get("else") is not None and any(x.get("k") == "Break" for x in walk(b["else"]))):
+        return False, "not a conditional loop the rule knows: " + show(lp)[:60]
+    cond = peel(b["cond"])
+    tested = peel(cond["arg"]) if cond.get("k") == "LetCond" else cond
+    while tested.get("k") == "Try":
+        tested = peel(tested["arg"])
+    calls = [x for x in walk(tested) if x.get("k") == "Call" and x.get("fn")]
+    for x in calls:
+        if any(x["fn"].endswith(c) for c in CONSUMING) and x["args"] and q.base_var(x["args"][0]) is not None:
+            return True, "the condition itself takes the next item (%s)" % x["fn"].split("::")[-1]
+    for x in calls:
+        if x["fn"].endswith(("::peek", "::peek_mut", "::last", "::first", "::is_empty", "::len")) and x["args"] and q.base_var(x["args"][0]) is not None:
+            src = q.base_var(x["args"][0])
+            if q.every_cycle_calls(lp, lambda y: _consumes(F, y, src)):
+                return True, "the condition looks at the source and every cycle takes an item from it"
+            return False, "a cycle can come back to `%s` without taking an item from the source" % show(tested)[:50]
+    if tested.get("k") == "Binary" and tested["op"] in ("Lt", "Le", "Gt", "Ge", "Ne"):
+        for side in ("lhs", "rhs"):
+            v = q.var_id(tested[side])
+            if v is not None and q.every_cycle_calls(lp, lambda y: y.get("k") == "AssignOp" and y["op"] in ("AddAssign", "SubAssign") and q.var_id(y["lhs"]) == v and lit(y["rhs"]) and lit(y["rhs"])[0] == "i" and lit(y["rhs"])[1] > 0):
+                return True, "the compared counter moves by a constant step in every cycle"
+    return False, "no progress argument for the condition `%s`" % show(tested)[:60]
 
 
 def d_tokens_index(F, s):
@@ -236,6 +286,7 @@ def run(rep):
     panic.LOCKSTEP_OK = all(i.status == "discharged" for i in rep.instances if i.rule == "LOCKSTEP") and any(i.rule == "LOCKSTEP" for i in rep.instances)
     R = run_panic(rep, F, ["LOAD"], floor=20, extra_rules=(d_tokens_index,))
     # ---------------------------------------------------------------- PROGRESS
+    tk_loops = []
     tk = F.fn("<std::string::String as tokeniser::Tokeniser>::tokenise")
     if tk is None:
         rep.lost("PROGRESS", "PROGRESS/anchor", "String::tokenise")
@@ -245,6 +296,7 @@ def run(rep):
             if n.get("k") == "Match" and len(n["arms"]) >= 8 and n["scrut"].get("ty") == "char":
                 main = n
         loops = [n for n in walk(tk.body) if n.get("k") == "Loop"]
+        tk_loops = loops if len(loops) == 1 and main is not None else []
         okloop = False
         it_id = None
         if len(loops) == 1:
@@ -318,9 +370,8 @@ def run(rep):
         cw = F.fn("tokeniser::consume_while")
         if cw is not None:
             s = show_fn(cw)
-            itid = strip_ref(cw.thir["params"][0]["pat"]).get("id")
             loops = [x for x in walk(cw.body) if x.get("k") in ("Loop", "For")]
-            ok = len(loops) == 1 and q.every_cycle_calls(loops[0], lambda x: call_is(x, "Iterator::next") and q.base_var(x["args"][0]) == itid)
+            ok = len(loops) == 1 and loop_progress(F, loops[0])[0]
             rep.check(ok, "PROGRESS", "PROGRESS/consume_while", cw.sp, "consume_while: every cycle that does not leave the loop consumes a char from the iterator", s[:80])
     pe = F.fn("parser::parse_expr")
     pl = F.fn("parser::parse_led")
@@ -338,7 +389,20 @@ def run(rep):
         loops = [x for x in walk(pe.body) if x.get("k") in ("Loop", "For")]
         ok = len(loops) == 1 and q.every_cycle_calls(loops[0], lambda x: call_is(x, "parser::parse_led") and q.base_var(x["args"][1]) == itid)
         rep.check(ok, "PROGRESS", "PROGRESS/parse_expr", pe.sp, "Pratt loop: every cycle that does not leave the loop goes through parse_led (which consumes a token)", s[:80])
-    rep.floor("PROGRESS", 14)
+    # every other `loop` / `while` / `while let` in the crate: each cycle consumes from the source its condition tests
+    nl = 0
+    for name, f in sorted(F.fns.items()):
+        if f.thir is None or "::{closure#" in name:
+            continue
+        for lp in [x for x in walk(f.body) if x.get("k") == "Loop"]:
+            nl += 1
+            occ = sum(1 for i in rep.instances if i.key.startswith("PROGRESS/loop/%s#" % name))
+            if any(lp is m for m in tk_loops):
+                rep.ok("PROGRESS", "PROGRESS/loop/%s#%d" % (name, occ), lp["sp"], "the tokeniser's main loop: progress is shown arm by arm (PROGRESS/arm/*)")
+                continue
+            okp, why = loop_progress(F, lp)
+            rep.check(okp, "PROGRESS", "PROGRESS/loop/%s#%d" % (name, occ), lp["sp"], "every cycle of the loop that does not leave it consumes from the source its condition tests", why)
+    rep.floor("PROGRESS", 19)
     if rep.tier == "thorough":
         import poscontrol
         poscontrol.panics(rep)
